@@ -27,6 +27,8 @@ def encoder_match(run, model, f):
             k = sum(1 for arm in m["arms"] if re.search(r"TypeExpr::[A-Z]", S.norm_ws(run.facts.text(DER, arm["pat"]["sp"]))))
             if k and (best is None or k > best[0]):
                 best = (k, m)
+        if best is not None and g is f:
+            break  # the function's own match decides; helpers are only consulted when it has none
     return best[1] if best else None
 
 
@@ -302,6 +304,47 @@ def r18_6(run, model):
     run.floor("element loops of derive body builders", m_, 4)
 
 
+SCALARS = ("TUnit", "TBool", "TInt8", "TInt16", "TInt32", "TInt64", "TUint8", "TUint16", "TUint32", "TUint64", "TFloat32", "TFloat64")
+HAS_TO_STRING_METHOD = {"TInt32": "int32 has an inherent to_string (builtin_functions_test::env_registers_builtin_int32_inherent_to_string)"}
+
+
+def r18_11(run, model):
+    run.rule("R18.11", "the code generated for a scalar field type-checks: `.to_string()` exists only on int32, so for every other scalar type "
+                       "(unit, bool, the other integer widths, floats) call_to_string calls a rendering builtin by name, and that builtin is "
+                       "declared in builtin.gom - otherwise the derive accepts the type and the typer rejects the generated code")
+    BG = "crates/compiler/src/builtin.gom"
+    declared = set(re.findall(r"extern\s+fn\s+(\w+)\s*\(", "\n".join(run.facts.source_lines(BG))))
+    if len(declared) < 12:
+        raise AnalysisIncomplete("builtin.gom: extern fn declarations not found")
+    f = model.fn("call_to_string", DER)
+    # mapping functions: match arms `…TypeExpr::TX => Some("name")` in a helper called by call_to_string, or in call_to_string itself
+    mapping = {}
+    refs = S.idents(f.body) | {S.callee_name(c) for c in S.calls(f.body)}
+    cands = [f] + [g for g in model.fns(DER) if g.body is not None and g.name != f.name and g.name in refs]
+    for g in cands:
+        for m in S.find(g.body, "Match"):
+            for arm in m["arms"]:
+                lits = [x["value"] for x in S.walk(arm["body"]) if x["k"] == "Lit" and x.get("lit") == "Str"]
+                if len(lits) != 1:
+                    continue
+                for a in S.pat_alts(arm["pat"]):
+                    h = S.pat_head(a)
+                    if h[0] == "variant" and h[1][-1] in SCALARS:
+                        mapping[h[1][-1]] = lits[0]
+    for v in SCALARS:
+        if v in HAS_TO_STRING_METHOD and v not in mapping:
+            run.ob("R18.11", f"call_to_string|{v} is rendered by a function that exists", True, site(DER, f.node["sp"]), HAS_TO_STRING_METHOD[v])
+            continue
+        name = mapping.get(v)
+        ok = name is not None and name in declared
+        run.ob("R18.11", f"call_to_string|{v} is rendered by a function that exists", ok, site(DER, f.node["sp"]),
+               f"builtin called: {name!r}; declared in builtin.gom: {name in declared if name else False}" if name else
+               "no builtin is chosen for this type: the generated code calls `.to_string()`, a method only int32 has",
+               witness="#[derive(ToString)] struct Switch { on: bool } / #[derive(ToJson)] struct Stamp { at: int64 }: "
+                       "`Method to_string not found for type ExprId {..}` - an unlocated typer error about generated code")
+    run.floor("builtins declared in builtin.gom", len(declared), 12)
+
+
 def run(run, model):
     run.try_rule(r18_1, model)
     run.try_rule(r18_2, model)
@@ -312,6 +355,7 @@ def run(run, model):
     run.try_rule(r18_7, model)
     run.try_rule(r18_8, model)
     run.try_rule(r18_10, model)
+    run.try_rule(r18_11, model)
     from rules import c05
     run.rule("R18.9", "binders of generated code are distinct variables (shared with C05 R05.6: every binder id is fresh, never interned by syntax pointer)")
     run.try_rule(c05.r05_6, model)
